@@ -411,7 +411,8 @@ pub fn run(cx: &mut Ctx) {
             if rng.bool() {
                 let start: Vec<(String, String)> = keys.iter().take(rng.range(1, nk)).map(|k| (k.clone(), (0..rng.range(0, 5)).map(|_| *rng.pick(&alphabet)).collect())).collect();
                 // start values must survive the file format of the start state
-                let start: Vec<(String, String)> = start.into_iter().map(|(k, v)| (k, if unicode { v } else { v.replace('\u{a5}', "y") })).collect();
+                // (under Miri a parsed start state always goes through the legacy format, see run_history_fmt)
+                let start: Vec<(String, String)> = start.into_iter().map(|(k, v)| (k, if unicode && !cfg!(miri) { v } else { v.replace('\u{a5}', "y") })).collect();
                 run_history_fmt(c, &h, &keys, true, &start, unicode, be);
             } else {
                 run_history_fmt(c, &h, &keys, true, &[], unicode, be);
